@@ -5,7 +5,8 @@
 //
 // Input: one JSON object per line  {"id":n, "prog":{"code":{"A":[step..],"B":..}, "bal":{"A":1,..}}, ...}.
 // A step is {"op":"SSTORE","k":1,"v":2} | {"op":"LOG","t":1} | {"op":"CALL","kind":"CALL|CALLCODE|DELEGATECALL|STATICCALL",
-// "to":"B","val":0|1,"gas":"all"|"none"} | {"op":"CREATE","init":[step..]} | {"op":"SELFDESTRUCT","to":"B|SELF|X"} |
+// "to":"B","val":0|1,"gas":"all"|"none"} | {"op":"CREATE","kind":"CREATE|CREATE2","init":[step..],"val":0|1} |
+// {"op":"SELFDESTRUCT","to":"B|SELF|X"} |
 // {"op":"RETURN"} | {"op":"REVERT"} | {"op":"INVALID"} | {"op":"STOP"}.
 //
 // Every script is assembled to real bytecode (tiny assembler below), the contracts are installed in a fresh real
@@ -168,10 +169,17 @@ func assemble(steps []Step, isInit bool) []byte {
 			a.inits = append(a.inits, init)
 			a.push1(0) // memOffset
 			a.op(vm.CODECOPY)
+			if s.Kind == "CREATE2" {
+				a.push1(len(a.code) & 0xff) // salt: distinct per step (code offset)
+			}
 			a.push2(len(init)) // size
 			a.push1(0)         // offset
-			a.push1(0)         // value
-			a.op(vm.CREATE)
+			a.push1(s.Val)     // endowment
+			if s.Kind == "CREATE2" {
+				a.op(vm.CREATE2)
+			} else {
+				a.op(vm.CREATE)
+			}
 			a.op(vm.POP)
 		case "SELFDESTRUCT":
 			if s.To == "SELF" {
